@@ -1,1 +1,5 @@
 pub mod plan;
+#[cfg(feature = "parallel")]
+pub mod asyncd;
+#[cfg(feature = "parallel")]
+pub mod asyncd_sys;
